@@ -547,6 +547,8 @@ def monitor(eng, line, out):
                 hit("C09:double-drop", "id %d destroyed by the channel after it was returned to the caller (op %s)" % (d, desc))
             elif d not in expect_drops:
                 hit("C09:unexpected-drop", "id %d destroyed by op %s" % (d, desc))
+                if d in accepted:
+                    hit("C01:lost", "id %d was accepted (its send reported success) and then destroyed by op %s without being received" % (d, desc))
             dropped.add(d)
             if d in Q:
                 Q.remove(d)
